@@ -10,7 +10,7 @@ const SPEC: Spec = Spec {
         "fixed base set (48 values incl. 2- and 3-digit patterns, both signs); exponents bounded (every e up to the bound, hence every trailing-zero / set-bit pattern below it)",
         "BigUint exponents beyond u128 are exercised only with bases 0 and +-1 (anything else must exhaust memory: out of scope)",
     ],
-    bounds_quick: "48 bases x every e in 0..=200; bases 0,+-1,+-2 x every e < 4096; 11 sparse / long bases (2^k+1 for k in {320,1024,2048,4160}, 40- and 70-digit values) x every e up to 24..3; BigUint exponents at 2^64-1, 2^64, 2^128-1, 2^128, 2^200 with bases 0,+-1",
+    bounds_quick: "48 bases x every e in 0..=200; bases 0,+-1,+-2 x every e < 4096; 11 sparse / long bases (2^k+1 for k in {320,1024,2048,4160}, 40- and 70-digit values) x every e up to 24..3; 17 edge exponents (2^8, 2^16, 2^32(+1), 2^63, 2^64-1, 2^64(+1), 2^65, 2^64(2^64-1), 2^128-1, 2^128(+1), 2^200(+1), ...) with bases 0,+-1 through the BigUint-exponent forms and every primitive exponent type the value fits (u16,u32,u64,usize,u128; BigUint and BigInt bases, value and reference)",
     bounds_thorough: "48 bases x every e in 0..=600 (3-digit bases up to e=300); bases 0,+-1,+-2 x every e < 16384; edge exponents",
     hang_secs: 60,
     probes: None,
@@ -168,6 +168,15 @@ fn body(ctx: &mut Ctx) {
             Nat::from_digits(&[1, 0, 1]),
             Nat::one().shl(200),
             Nat::one().shl(200).add(&Nat::one()),
+            // truncation edges of narrower exponent types: multiples of 2^8, 2^16, 2^32, 2^64
+            Nat::from_digits(&[1 << 8]),
+            Nat::from_digits(&[1 << 16]),
+            Nat::from_digits(&[1 << 32]),
+            Nat::from_digits(&[(1 << 32) + 1]),
+            Nat::from_digits(&[1 << 63]),
+            Nat::from_digits(&[0, 2]),
+            Nat::from_digits(&[0, alpha::M]),
+            Nat::from_digits(&[1 << 32, 1 << 32]),
         ];
         for e in &edges {
             let eb = bu_nat(e);
@@ -197,9 +206,54 @@ fn body(ctx: &mut Ctx) {
                 if let Some(t) = e.to_u128() {
                     let r = call(ctx, || Pow::pow(&x, t));
                     expect_int(ctx, "BigInt (&x).pow(u128 edge)", &args, r, &want);
+                    let r = call(ctx, || Pow::pow(x.clone(), &t));
+                    expect_int(ctx, "BigInt x.pow(&u128 edge)", &args, r, &want);
+                    if !b.neg {
+                        // the BigUint forms have their own primitive-exponent loop (BigInt's result is re-normalised
+                        // by from_biguint, which would mask a wrong magnitude for base 0)
+                        let u = bu_nat(&b.mag);
+                        let r = call(ctx, || Pow::pow(&u, t));
+                        expect_nat(ctx, "BigUint (&x).pow(u128 edge)", &args, r, &want.mag);
+                        let r = call(ctx, || Pow::pow(u.clone(), t));
+                        expect_nat(ctx, "BigUint x.pow(u128 edge)", &args, r, &want.mag);
+                        let r = call(ctx, || Pow::pow(&u, &t));
+                        expect_nat(ctx, "BigUint (&x).pow(&u128 edge)", &args, r, &want.mag);
+                        let r = call(ctx, || Pow::pow(u.clone(), &t));
+                        expect_nat(ctx, "BigUint x.pow(&u128 edge)", &args, r, &want.mag);
+                        if let Some(t64) = e.to_u64() {
+                            let r = call(ctx, || Pow::pow(&u, t64));
+                            expect_nat(ctx, "BigUint (&x).pow(u64 edge)", &args, r, &want.mag);
+                            let r = call(ctx, || Pow::pow(u.clone(), &t64));
+                            expect_nat(ctx, "BigUint x.pow(&u64 edge)", &args, r, &want.mag);
+                        }
+                    }
                     if let Some(t64) = e.to_u64() {
                         let r = call(ctx, || Pow::pow(&x, t64));
                         expect_int(ctx, "BigInt (&x).pow(u64 edge)", &args, r, &want);
+                        let r = call(ctx, || Pow::pow(&x, t64 as usize));
+                        expect_int(ctx, "BigInt (&x).pow(usize edge)", &args, r, &want);
+                        if let Ok(t32) = u32::try_from(t64) {
+                            let r = call(ctx, || Pow::pow(&x, t32));
+                            expect_int(ctx, "BigInt (&x).pow(u32 edge)", &args, r, &want);
+                            let r = call(ctx, || (&x).pow(t32));
+                            expect_int(ctx, "BigInt x.pow(u32 edge) inherent", &args, r, &want);
+                            if !b.neg {
+                                let u = bu_nat(&b.mag);
+                                let r = call(ctx, || Pow::pow(&u, t32));
+                                expect_nat(ctx, "BigUint (&x).pow(u32 edge)", &args, r, &want.mag);
+                                let r = call(ctx, || (&u).pow(t32));
+                                expect_nat(ctx, "BigUint x.pow(u32 edge) inherent", &args, r, &want.mag);
+                            }
+                        }
+                        if let Ok(t16) = u16::try_from(t64) {
+                            let r = call(ctx, || Pow::pow(&x, t16));
+                            expect_int(ctx, "BigInt (&x).pow(u16 edge)", &args, r, &want);
+                            if !b.neg {
+                                let u = bu_nat(&b.mag);
+                                let r = call(ctx, || Pow::pow(&u, t16));
+                                expect_nat(ctx, "BigUint (&x).pow(u16 edge)", &args, r, &want.mag);
+                            }
+                        }
                     }
                 }
             }
